@@ -1,12 +1,64 @@
-import RsModel.Lemmas.Lines
+import RsModel.Lemmas.PosTree
 /-!
 # C02 — reported generated positions are the true positions
+
+`posOKT pre evs`: every chunk of `evs` that carries text is reported at the position (1-based line, 0-based byte column) reached
+after writing `pre` and the texts of the chunks before it.  `PosOK r` = `posOKT [] r.evs` and `r.info` is the position after the
+last character.
 -/
 namespace Rs
 
-/-- position calculus: the position after `a ++ b` is the position after `b` started where `a` ended -/
+/-- the line/column calculus every position claim rests on -/
 theorem c02_adv_append (p : Pos) (a b : Text) : adv p (a ++ b) = adv (adv p a) b := adv_append p a b
 
-example : adv ⟨1, 0⟩ [97, 10, 98] = ⟨2, 1⟩ := by decide
+/-- **C02, normal mode, every source tree** (all eight node kinds, any depth, either column setting).  Every streamed chunk is
+reported at the line and column at which its text really starts in the reassembled output, and the returned generated-end
+information is the position just after the last character — which, by C01, is the end of `source()`.
+
+Hypotheses = the property's quantifier:
+* `s.WF`: replacements have `start ≤ end`; texts of SourceMapSource / CachedSource nodes are Rust `String`s;
+* `s.PosHyp c`: SourceMapSource texts (and the texts a CachedSource replays) are ASCII, so that byte, char and UTF-16 columns
+  coincide, and with columns the segments of an attached map lie inside its text ("maps consistent with their text"); the output
+  of each ReplaceSource is shorter than `2^32` bytes (positions are `u32`);
+* the cache contents `σ` are arbitrary except that a map already cached for a node of this tree lies inside the text it will be
+  replayed on (`StoreHyp`), and distinct CachedSource nodes own distinct caches (`Nodup`).
+Replacement sets are arbitrary (overlapping, nested, deleting or inserting line breaks, beyond the end). -/
+theorem c02 (s : Src) (c : Bool) (σ : Store) (hw : s.WF) (hp : s.PosHyp c) (hn : s.ids.Nodup) (hs : StoreHyp c σ s.cachedNodes) :
+    posOKT [] (s.stream ⟨c, false⟩ σ).1.evs
+    ∧ (s.stream ⟨c, false⟩ σ).1.info = adv startPos (evsText (s.stream ⟨c, false⟩ σ).1.evs)
+    ∧ (s.stream ⟨c, false⟩ σ).1.info = adv startPos s.src := by
+  obtain ⟨h1, h2⟩ := Src.stream_posOK s c σ hw hp hn hs
+  refine ⟨h1, h2, ?_⟩
+  rw [h2, Src.stream_text s c σ hw]
+
+/-- the heart of the ReplaceSource case: whatever the inner stream (any chunking into tokens, any mappings), if it reports true
+positions then so does the spliced stream -/
+theorem c02_replace (sorted : List Repl) (inner : SResult) (hp : PosOK inner) (hT : ChunksTok inner.evs) (hTL : evsTL inner.evs = false)
+    (hb : (evsText (replaceStream sorted inner).evs).length + 1 < 2 ^ 32) : PosOK (replaceStream sorted inner) :=
+  replaceStream_posOK sorted inner hp hT hTL hb
+
+/-- a ConcatSource shifts each child's positions by the position where the child starts -/
+theorem c02_concat (children : List SResult) (hc : ∀ c ∈ children, PosOK c) : PosOK (concatStream false children) :=
+  concatStream_posOK children hc
+
+/-- the map-driven splitters report true positions for every map whose segments lie inside the (ASCII) text; without columns for
+every map whatsoever -/
+theorem c02_sourcemap (t : Text) (sm : SMap) (c : Bool) (ha : IsAscii t) (hl : t.length ≤ USIZE_MAX) (hm : c = true → MapInside t sm) :
+    PosOK (streamSM t sm ⟨c, false⟩) := streamSM_posOK t sm c ha hl hm
+
+/-- non-vacuity: the hypotheses of `c02` are met by a tree with a SourceMapSource (map `AAAA;AACA` on a two-line text), a
+concatenation, a replacement deleting a line break and a CachedSource, on a cold cache -/
+example : let t : Src := .cached 0 (.replace (.concat (.cons (.sms [97, 10, 98, 99] [102] (SMap.mk [65, 65, 65, 65, 59, 65, 65, 67, 65] [[120]] [] [] none none none) none none false)
+      (.cons (.orig [99, 59, 100] [103]) .nil))) [⟨1, 2, [], none, 1⟩])
+    t.PosHyp true ∧ t.ids.Nodup ∧ StoreHyp true [] t.cachedNodes := by
+  intro t
+  have hdec : decode [65, 65, 65, 65, 59, 65, 65, 67, 65] = [⟨1, 0, some ⟨0, 1, 0, none⟩⟩, ⟨2, 0, some ⟨0, 2, 0, none⟩⟩] := by decide
+  refine ⟨⟨⟨⟨⟨by decide, by decide, fun _ => ?_⟩, trivial, trivial⟩, by decide⟩, by decide, by decide⟩, by decide, ?_⟩
+  · intro m hm
+    simp only [hdec, List.mem_cons, List.not_mem_nil, or_false] at hm
+    rcases hm with rfl | rfl
+    · exact ⟨by decide, fun _ => by decide⟩
+    · exact ⟨by decide, fun _ => by decide⟩
+  · intro p _ m hm; simp [Store.get?] at hm
 
 end Rs
